@@ -27,6 +27,8 @@ package reflection
 //
 //@ func Analyzer.Analyze
 //@   mode conc
+//@   dead return#5
+//@   dead return#6
 //@   safety off
 //@   nopanic
 //@   modifies ConstructorInfo.*, map[uintptr]*ConstructorInfo, alloc, Dependency.*
